@@ -28,10 +28,9 @@
                                      of stop() and the next start()
      C09.threads.single-worker       a tick fired by a worker other than the one
                                      of the latest start() (a second worker lives)
-     C09.threads.tick-after-stop     a tick that became due after stop() was called
-                                     (the code: the running handler completes, the
-                                     worker leaves without another tick; a tick due
-                                     AT the instant of the call is accepted)
+     C09.threads.stop-returns        stop() had not returned when the observation ended
+                                     (the rig ends it early only when virtual time runs
+                                     away: about twice what the script needs)
      C09.threads.restart-sequence    ticks after a restart are not start, start+1, ..
      C09.threads.consecutive         same in the first epoch
      C09.threads.tick-time           a tick not at its instant / missing / ClckGen's
@@ -41,7 +40,13 @@
    Don't-cares: WHEN stop() returns and whether the old worker is still inside its
    handler at that moment (StopReturnEff is used without the Joined guard: a zombie
    is judged by what it DOES), when a worker that was asked to leave actually does,
-   the order in which the links of one frame are served.
+   the order in which the links of one frame are served, and ticks WHILE stop() is in
+   progress: the statement draws the line at the return of stop(), so a tick of the
+   current worker between stop-call and stop-return is accepted if it is on schedule
+   and in sequence.  (The code itself is stricter - the handler that is running
+   completes, then the worker leaves without another tick: ClckGenThreads models
+   exactly that and MC_ClckGenThreads checks it as NoTickAfterStopCall / StopIsPrompt;
+   the rig counts such ticks for the evidence.)
 
    FrameT = cfg.T of the batch (the code's own first wait), as in ClckGenTrace. *)
 EXTENDS ClckGenThreads, TraceKit
@@ -107,7 +112,12 @@ TRelink ==
   /\ UNCHANGED <<bvars, pend>>
   /\ Adv
 
-TEnd == IsEv("end") /\ Punctual /\ UNCHANGED <<tvarsAll, pend>> /\ Adv
+TEnd ==
+  /\ IsEv("end")
+  /\ Punctual
+  /\ Tag("C09.threads.stop-returns", gen # "stopping")
+  /\ UNCHANGED <<tvarsAll, pend>>
+  /\ Adv
 
 \* ---- workers --------------------------------------------------------------------
 \* the instant of a tick, observed at the handler call or at an indication of that tick
@@ -116,7 +126,6 @@ TickInstant(w) ==
   /\ wk[w].st = "sleep"
   /\ Tag("C09.threads.tick-while-stopped", gen # "stopped")
   /\ Tag("C09.threads.single-worker", w = cur)
-  /\ Tag("C09.threads.tick-after-stop", AskedToLeave(w) => Ev.t <= wk[w].rt)
   /\ Tag("C09.threads.tick-time", Ev.t = wk[w].at)
   /\ Punctual
 
@@ -144,7 +153,6 @@ TTick ==
   /\ UNCHANGED bvars
   /\ Tag("C09.threads.tick-while-stopped", NoTickWhileStopped')
   /\ Tag("C09.threads.single-worker", ~stale')
-  /\ Tag("C09.threads.tick-after-stop", NoTickAfterStopCall')
   /\ Tag("C09.threads.indication.when", G!IndWhen')
   /\ Tag("C09.threads.indication.links", G!IndLinks')
   /\ Tag("C09.threads.indication.octets", G!IndOctets')
